@@ -79,7 +79,7 @@ def check(rep, F, tier, replay=None):
         if fid is None:
             continue
         ops, errs = [], []
-        e7.operand_env_walk(F.hir[fid]["body"], {}, [], ops, errs, accs)
+        e7.operand_env_walk(F.hir[fid]["body"], {}, [], ops, errs, set(accs) | e7.acc_names_of(F.hir[fid]))
         rep.inst("T-proposal")
         if not any(o.split("|")[0].endswith((".deposit", ".deposit()")) for o in ops):
             rep.violation("T-proposal", key, "%s does not add a proposal deposit (operands seen: %s)" % (key, ops), {"function": key})
@@ -92,7 +92,7 @@ def check(rep, F, tier, replay=None):
         if fid is None:
             continue
         ops, errs = [], []
-        e7.operand_env_walk(F.hir[fid]["body"], {}, [], ops, errs, {"acc", "withdrawal_sum", "total", "refund"})
+        e7.operand_env_walk(F.hir[fid]["body"], {}, [], ops, errs, {"acc", "withdrawal_sum", "total", "refund"} | e7.acc_names_of(F.hir[fid]))
         rep.inst("T-withdrawals")
         if not ops:
             rep.violation("T-withdrawals", key, "%s contains no checked_add" % key, {"function": key})
